@@ -57,7 +57,7 @@ def run(ctx):
     if ctx.replay:
         return pc.replay(ctx, MODULE_T, kd, stride=1)
     vectors, nvec = pc.gen_vectors(ctx, kd)
-    nmut = 20000 if ctx.quick else 1200000
+    nmut = 60000 if ctx.quick else 1200000
     run_ = pc.Run(ctx, "c02", vectors=vectors, mutations=nmut)
     d = run_.execute()
     v, cfg = pc.judge(ctx, MODULE_T, run_.trace, kd, f"fixtures + model vectors + mutations seed={ctx.seed}", stride=run_.jobs)
